@@ -4,6 +4,8 @@ set -u
 PATCH="$(readlink -f "$1")"; PROP="$2"; TIER="${3:-quick}"
 if ! git -C /repo diff --quiet; then echo "/repo has local modifications; refusing" >&2; exit 2; fi
 git -C /repo apply "$PATCH" || { echo "patch does not apply" >&2; exit 2; }
-trap 'git -C /repo checkout -- . ; git -C /repo clean -fdq src' EXIT
+# the evidence file of a run against a modified tree must not replace the committed one
+cp /verif/evidence/$PROP.json /dev/shm/evidence-$PROP.keep 2>/dev/null
+trap 'git -C /repo checkout -- . ; git -C /repo clean -fdq src; [ -f /dev/shm/evidence-$PROP.keep ] && mv /dev/shm/evidence-$PROP.keep /verif/evidence/$PROP.json' EXIT
 /verif/check "$PROP" "$TIER"
 echo "exit=$?"
